@@ -268,6 +268,7 @@ def runPTwin (c : PCase) (first : PObs) : Option PObs :=
   match c.twin with
   | "fast" => some (runPWith c { c.cfg with fast := !c.cfg.fast } c.ops)
   | "nometa" => some (runPWith c { c.cfg with md := none } c.ops)
+  | "nofault" => some (runPWith { c with policy := {} } c.cfg c.ops)
   | "filter" => some (runPWith c c.cfg (filteredOps c.ops first.replies))
   | _ => none
 
